@@ -79,9 +79,28 @@ def make_case(obj, key, val, seed_steps):
     return text
 
 
-def scenario(work, idx, text, rng, via_script=False):
+PADS = {}
+
+# structurally valid option combinations on data files written by an earlier run of the same process (never fatal, whatever they are)
+INPUT_CASES = [
+ "abf {\n name b\n colvars r\n fullSamples 2\n integrate off\n inputPrefix %(pre)s\n}\n",
+ "abf {\n name b\n colvars r\n fullSamples 2\n inputPrefix %(pre)s\n}\n",
+ "abf {\n name b\n colvars r\n fullSamples 2\n integrate off\n inputPrefix %(pre)s nosuchfile\n}\n",
+ "abf {\n name b\n colvars r\n fullSamples 2\n updateBias off\n inputPrefix %(pre)s\n}\n",
+]
+
+
+def scenario(work, idx, text, rng, via_script=False, pre=None):
     prefix = os.path.join(work, "o%d" % idx)
-    L = ["m.new %d" % NATOMS, "M.noclock", "m.opt prefix %s" % prefix, cfg(REF)]
+    L = []
+    if pre is not None:
+        # an ABF run that leaves <pre>.count / <pre>.grad behind
+        L += ["m.new %d" % NATOMS, "M.noclock", cfg(REF), cfg("abf {\n name w\n colvars r\n fullSamples 2\n}\n"), "m.opt prefix %s" % pre]
+        for s_ in range(5):
+            L += [pos(3, 0.0, 0.0, 0.1 * s_), tf(3, 0, 0, 0.5), "m.step"]
+        L += ["m.endrun"]
+    pad = len(L)
+    L += ["m.new %d" % NATOMS, "M.noclock", "m.opt prefix %s" % prefix, cfg(REF)]
     L += [pos(3, 0.0, 0.0, 0.3), pos(0, 0.0, 0.0, 0.1), tf(0, 0, 0, 0.5), "m.step", "m.bias href"]
     # the configuration reaches the module directly (read_config_string) or through the scripting interface's queue (`cv config`)
     L += ["m.scriptq cv config " + esc(text)] if via_script else [cfg(text)]
@@ -90,6 +109,7 @@ def scenario(work, idx, text, rng, via_script=False):
         x += rng.uniform(-0.4, 0.4)
         L += [pos(0, 0.0, 0.0, x), pos(3, 0.0, 0.0, 0.3 + 0.01 * s), tf(0, 0, 0, rng.uniform(-1, 1)), "m.step", "m.bias href"]
     L += ["m.save %s" % prefix, "m.endrun", "m.scriptq cv reset", cfg(REF), pos(3, 0.0, 0.0, 0.3), "m.step", "m.bias href"]
+    PADS[idx] = pad           # the evaluation addresses the reference energy and the configuration by line number
     return L
 
 
@@ -301,8 +321,17 @@ def extra(rep, tier, rng):
     # every fourth configuration of the sweep, and every configuration of the rejected list, arrives through `cv config`
     nsweep = len(jobs)
     jobs += [("reject%d" % i, "(whole configuration)", r[1].split("\n")[0]) for i, r in enumerate(REJECTS)]
+    nrejects = len(jobs)
+    jobs += [("input%d" % i, "(whole configuration)", " ".join(t.split()[5:])[:60]) for i, t in enumerate(INPUT_CASES)]
     files = []
     for i, (obj, key, val) in enumerate(jobs):
+        if i >= nrejects:
+            pre = os.path.join(work, "in%d" % i)
+            L = scenario(work, i, INPUT_CASES[i - nrejects] % {"pre": pre}, rng.fork(), pre=pre)
+            f = os.path.join(work, "c%d.txt" % i)
+            open(f, "w").write("\n".join(L) + "\n")
+            files.append(f)
+            continue
         text = make_case(obj, key, val, None) if i < nsweep else REJECTS[i - nsweep][1]
         L = scenario(work, i, text, rng.fork(), via_script=(i % 4 == 3 or i >= nsweep))
         f = os.path.join(work, "c%d.txt" % i)
@@ -318,7 +347,7 @@ def extra(rep, tier, rng):
     for (obj, key, val), f, (rc, out, err) in zip(jobs, files, results):
         po, _ = cvlib.parse_out(out) if out else ({}, [])
         L = open(f).read().split("\n")
-        cfg_line = 10  # index (1-based) of the mutated configuration in `scenario`
+        cfg_line = 10 + PADS.get(jobs.index((obj, key, val)), 0)  # index (1-based) of the mutated configuration in `scenario`
         r = po.get((cfg_line, "rc", 1))
         if r == ["i1"]:
             nrej += 1
@@ -339,7 +368,7 @@ def extra(rep, tier, rng):
                           open(f).read(), "fatal_" + re.sub(r"[^A-Za-z0-9]+", "_", "%s_%s_%s" % (obj, key, (val or "empty").replace("-", "m").replace(".", "p")))[:80], found_input=True, signature=sig)
             continue
         # the module stays usable and the reference bias is unaffected: energies of href identical to a run without the object
-        e_ref_before = po.get((9, "e", 1))
+        e_ref_before = po.get((9 + PADS.get(jobs.index((obj, key, val)), 0), "e", 1))
         last = max((k[0] for k in po if k[1] == "e"), default=None)
         if e_ref_before is None or last is None:
             rep.violation("module unusable after %s %s=%s" % (obj, key, val), open(f).read(), "unusable_%s_%s" % (obj, key), found_input=True,
